@@ -8,7 +8,9 @@ HARNESSES = [("h_serde", "rel")]
 ASSUMPTIONS = [
     "Address values are modelled as (type byte, base58/base59-decoded bytes); that the C++ text form and these bytes "
     "determine each other (DecodeBase58(EncodeBase58 b) = b on valid addresses) belongs to property C18 and is only "
-    "exercised, not proved, here; address validity (checksum = sha256) is a Section variable of the theorems",
+    "exercised, not proved, here; address validation/normalisation (base58/59 + sha256 checksum; the type is derived from the text) is the Section "
+    "variable addr_norm; theorems about codecs containing addresses carry the premise addr_norm_sound (result is a type "
+    "byte, at most VBK_ADDRESS_SIZE bytes, normalisation idempotent",
     "MerklePath::subject (not serialised) and the memoised hash_ fields are outside the model value; ids/hashes are "
     "compared by the implementation's own oracle only (VbkTx/VbkPopTx/BtcTx/BtcBlock hashes; ATV/VTB/VbkBlock ids need "
     "progpow and are not recomputed in the quick tier)",
@@ -125,6 +127,10 @@ def run(ctx):
             cases.append(("d%d" % j, "dec", [t, S.hb(hb_)]))
             g.hit("mut=" + kind)
             j += 1
+    for _ in range(8 if quick else 100):
+        cases.append(("d%d" % j, "dec", ["address", S.hb(S.standard_address_as_type3_wire(S.address_from_pubkey(r.bytes(r.range(0, 40)))))]))
+        g.hit("mut=type3-wire-of-standard-address")
+        j += 1
     gov = S.Gen(r.fork(), big=False, over=True)
     for t in S.TYPES:
         for _ in range(6 if quick else 100):
